@@ -24,10 +24,15 @@
 (*  - entry bytes that do not match their identifier, a missing or         *)
 (*    duplicated key file, a target that already holds an account:         *)
 (*    REJECTED (an error; a hang is not a rejection);                      *)
-(*  - anything else: no panic, and never a silently different state: the   *)
-(*    restore fails, or does not finish within the bounded wait, or yields *)
-(*    the source's keys and, for every group whose files all arrived       *)
-(*    undamaged, exactly the source's logs and state.                      *)
+(*  - dropped, duplicated, reordered entry / heads / key files, bytes       *)
+(*    flipped in a heads file, truncation: no panic, and never a silently  *)
+(*    different state: the restore fails, or does not finish within the    *)
+(*    bounded wait, or yields the source's keys and, for every group whose *)
+(*    files all arrived undamaged, exactly the source's logs and state;    *)
+(*  - a byte flipped inside a key file: the statement says nothing (its    *)
+(*    must-reject list names missing / duplicated key files only): any     *)
+(*    outcome without a panic is accepted - the restore may fail, or       *)
+(*    succeed with whatever identity the damaged key decodes to.           *)
 (***************************************************************************)
 EXTENDS Naturals, Integers, Sequences, FiniteSets, TLC, Json, IOUtils
 
@@ -64,6 +69,7 @@ ExportOK(e) ==
 \* ---- restore
 BadEntry(fed) == \E i \in DOMAIN fed : fed[i].t = "entry" /\ ~fed[i].match
 Strict(e) == BadEntry(e.fed) \/ KeyCount(e.fed, "account") # 1 \/ KeyCount(e.fed, "proof") # 1 \/ e.used
+KeyDamaged(fed) == \E i \in DOMAIN fed : fed[i].t = "key" /\ ~fed[i].same
 Unmutated(x, e) == e.fed = x.files /\ ~e.used /\ ~HasF(e, "noend")
 \* the files of group g all arrived undamaged (order and repetition do not matter)
 Intact(x, e, g) ==
@@ -81,7 +87,7 @@ RestoreOK(x, e) ==
   /\ e.out \in {"ok", "err", "timeout"}                       \* never a panic / a dead process
   /\ Strict(e) => e.out = "err"
   /\ Unmutated(x, e) => e.out = "ok"
-  /\ (e.out = "ok") =>
+  /\ (e.out = "ok" /\ ~KeyDamaged(e.fed)) =>
        /\ HasF(e, "keys") /\ e.keys = x.keys
        /\ \A g \in SetOf(x.open) : Intact(x, e, g) => SameGroup(x, e, g)
 
